@@ -45,6 +45,7 @@ type FnVC struct {
 	top        *Frame
 	obs        []Observable
 	instName   string
+	coveredCallsites map[string]bool
 	modSet     []modTarget
 	modGlobals []string
 }
@@ -57,7 +58,7 @@ type InputVar struct {
 
 func newFnVC(sess *Session, fn *ssa.Function, c *Contract) *FnVC {
 	vc := &FnVC{sess: sess, fn: fn, contract: c, declared: map[string]string{}, nameCount: map[string]int{},
-		assumes: map[string]bool{}, externUsed: map[string]bool{}, obligSeq: map[string]int{}}
+		assumes: map[string]bool{}, externUsed: map[string]bool{}, obligSeq: map[string]int{}, coveredCallsites: map[string]bool{}}
 	vc.entry = vc.newEntryState()
 	return vc
 }
